@@ -11,3 +11,5 @@ UNDECIDED = "`never panics / always returns` in general (internal-invariant pani
 ASSUMPTIONS = [K.A_PRED, "iterators over files, vectors and closed channels are finite", "zoom resolutions are positive (successors of 10 x4 / non-zero manual sizes)"]
 OBLIGATIONS = [K.WIG_GUARDS, K.BED_GUARDS, K.IDMAP, K.CHROM_ORDER, K.PARSE_ERRORS, K.INPUT_PANICS, K.RTREE_LOOP, K.WRITE_LOOPS, K.HANDOVER, K.ERR_DISC,
                K.SOURCE_SIBS, K.JOIN_RESULTS, K.ZOOM_LIST]
+OBLIGATIONS = OBLIGATIONS + [K.PROCESSOR_ARGS]
+OBLIGATIONS = OBLIGATIONS + [K.PROCESS_DATA]
